@@ -118,7 +118,14 @@ def run(spec, tier, seed, replay=None):
         deps = vlib.coq_deps(spec.prop_file)
         model_targets = [d + "o" for d in deps if d.startswith("Model/") or d.startswith("Lib/") or d.startswith("Gen/")]
         # models first (so that the correspondence can run even if a proof breaks), then proofs
+        # the files the correspondence needs (the *Check.v evaluators and what they import) first, on their own:
+        # a generated file that only a tie proof uses must not disable the model/implementation comparison
+        ok_check = True
+        if spec.extra_targets:
+            ok_check, _ = vlib.coq_make(spec.extra_targets)
         ok_model, mlog = vlib.coq_make(model_targets + spec.extra_targets)
+        if not spec.extra_targets:
+            ok_check = ok_model
         ok_proof, plog = vlib.coq_make([prop_vo])
         obligations, discharged = vlib.count_obligations(deps)
         if not ok_model:
@@ -183,7 +190,7 @@ def run(spec, tier, seed, replay=None):
             return None
         if rc != 0:
             problems.append({"kind": "harness-run", "what": "harness exited %s" % rc, "log": out[-3000:]})
-        if ok_model and s.get("case_files"):
+        if ok_check and s.get("case_files"):
             for f, okc, idx, clog in vlib.run_case_files(outdir, s["case_files"]):
                 if not okc:
                     problems.append({"kind": "correspondence", "what": "case file %s could not be evaluated" % f, "log": clog[-2000:]})
